@@ -167,12 +167,12 @@ func (s *Lexer) ws() {
 			s.end++
 			s.endRunes++
 			s.line++
-			s.lineStartRunes = s.endRunes
 			// skip the following newline if its there
 			if s.end < len(s.Input) && s.Input[s.end] == '\n' {
 				s.end++
 				s.endRunes++
 			}
+			s.lineStartRunes = s.endRunes
 			// byte order mark, given ws is hot path we aren't relying on the unicode package here.
 		case 0xef:
 			if s.end+2 < len(s.Input) && s.Input[s.end+1] == 0xBB && s.Input[s.end+2] == 0xBF {
